@@ -157,6 +157,19 @@ theorem tuple_in_array_sound {ty : Shape} (ih : SoundFor ty) (hw : ty.wf = true)
     simp only [List.all_cons, Bool.and_eq_true] at he ⊢
     exact ⟨ih e hw he.1 x h.1, tuple_in_array_sound ih hw es xs he.2 h.2⟩
 
+/-- the one-pass arm for an optional container against a `OneOf` -/
+theorem nullOk_sound {x : Shape} {vs : List Shape} {o' : Bool} (ih : ∀ v ∈ vs, SoundFor v)
+    (hw : wfList vs = true) (h : anyNullOkSuperset x (o' || setContains .null vs) vs = true)
+    {d : Doc} (hd : d = .null ∨ admits x d = true) : admits (.oneOf vs o') d = true := by
+  obtain ⟨v, hv, hn, hs⟩ := anyNullOkSuperset_iff.1 h
+  rcases hd with rfl | hd
+  · simp only [Bool.or_eq_true] at hn
+    rcases hn with (ho | hc) | hopt
+    · subst ho; simp [admits_oneOf, Doc.isNull]
+    · exact admits_oneOf_of_mem (setContains_iff.1 hc) admits_null_null
+    · exact admits_oneOf_of_mem hv (admits_null_of_isOptional hopt)
+  · exact admits_oneOf_of_mem hv (ih v hv x (wfList_mem hw v hv) hs d hd)
+
 theorem sizeOf_lt_of_mem_list {l : List Shape} {v : Shape} (h : v ∈ l) : sizeOf v < sizeOf l :=
   List.sizeOf_lt_of_mem h
 
@@ -238,15 +251,11 @@ theorem subset_sound_aux (n : Nat) : ∀ b : Shape, sizeOf b ≤ n → SoundFor 
       · simp [isSubset] at hsub
         rw [admits_oneOf, Bool.or_eq_true]; left
         exact any_sound vs hvs hw.2 hsub hd
-      · simp [isSubset] at hsub
-        rcases hsub with h | ⟨hnull, hany⟩
-        · exact admits_oneOf_of_mem (setContains_iff.1 h) hd
-        · rcases admits_array_cases hd with ⟨rfl, _⟩ | ⟨xs, rfl, hxs⟩
-          · rcases hnull with h | h
-            · subst h; simp [admits_oneOf, Doc.isNull]
-            · exact admits_oneOf_of_mem (setContains_iff.1 h) admits_null_null
-          · rw [admits_oneOf, Bool.or_eq_true]; left
-            exact any_sound vs hvs hw.2 hany (by rw [admits_array_arr]; exact hxs)
+      · simp only [isSubset] at hsub
+        refine nullOk_sound hvs hw.2 hsub ?_
+        rcases admits_array_cases hd with ⟨rfl, _⟩ | ⟨xs, rfl, hxs⟩
+        · exact Or.inl rfl
+        · exact Or.inr (by rw [admits_array_arr]; exact hxs)
     | _ => cases o <;> simp [isSubset] at hsub
   | tuple es o =>
     cases b with
@@ -268,15 +277,11 @@ theorem subset_sound_aux (n : Nat) : ∀ b : Shape, sizeOf b ≤ n → SoundFor 
       · simp [isSubset] at hsub
         rw [admits_oneOf, Bool.or_eq_true]; left
         exact any_sound vs hvs hw.2 hsub hd
-      · simp [isSubset] at hsub
-        rcases hsub with h | ⟨hnull, hany⟩
-        · exact admits_oneOf_of_mem (setContains_iff.1 h) hd
-        · rcases admits_tuple_cases hd with ⟨rfl, _⟩ | ⟨xs, rfl, hxs⟩
-          · rcases hnull with h | h
-            · subst h; simp [admits_oneOf, Doc.isNull]
-            · exact admits_oneOf_of_mem (setContains_iff.1 h) admits_null_null
-          · rw [admits_oneOf, Bool.or_eq_true]; left
-            exact any_sound vs hvs hw.2 hany (by rw [admits_tuple_arr]; exact hxs)
+      · simp only [isSubset] at hsub
+        refine nullOk_sound hvs hw.2 hsub ?_
+        rcases admits_tuple_cases hd with ⟨rfl, _⟩ | ⟨xs, rfl, hxs⟩
+        · exact Or.inl rfl
+        · exact Or.inr (by rw [admits_tuple_arr]; exact hxs)
     | array ty o' =>
       have hsub' : (es.all fun e => isSubset e ty) = true ∧ (o = true → o' = true) := by
         cases o <;> cases o' <;> simp_all [isSubset]
@@ -308,16 +313,11 @@ theorem subset_sound_aux (n : Nat) : ∀ b : Shape, sizeOf b ≤ n → SoundFor 
       · have hany : anyObjectSuperset (.object c false) vs = true := by simpa [isSubset] using hsub
         rw [admits_oneOf, Bool.or_eq_true]; left
         exact anyObject_sound vs hvs hw.2 hany hd
-      · simp [isSubset] at hsub
-        rcases hsub with hany | ⟨hnull, hany⟩
-        · rw [admits_oneOf, Bool.or_eq_true]; left
-          exact anyObject_sound vs hvs hw.2 hany hd
-        · rcases admits_object_cases hd with ⟨rfl, _⟩ | ⟨ms, rfl, hms, habs⟩
-          · rcases hnull with h | h
-            · subst h; simp [admits_oneOf, Doc.isNull]
-            · exact admits_oneOf_of_mem (setContains_iff.1 h) admits_null_null
-          · rw [admits_oneOf, Bool.or_eq_true]; left
-            exact any_sound vs hvs hw.2 hany (by rw [admits_object_obj, hms, habs]; rfl)
+      · simp only [isSubset] at hsub
+        refine nullOk_sound hvs hw.2 hsub ?_
+        rcases admits_object_cases hd with ⟨rfl, _⟩ | ⟨ms, rfl, hms, habs⟩
+        · exact Or.inl rfl
+        · exact Or.inr (by rw [admits_object_obj, hms, habs]; rfl)
     | _ => cases o <;> simp [isSubset] at hsub
   | oneOf vs o =>
     cases b with
